@@ -215,7 +215,7 @@ def check_het(rng):
         return y
     d = os.path.join(C.WORK, 'C12')
     src = ('from sequence_jacobian import grids\n\ndef make_grids(rho, sigma, nS, amax, nA):\n    e_grid, _, Pi = grids.markov_rouwenhorst(rho=rho, sigma=sigma, N=nS)\n'
-           '    a_grid = grids.agrid(amax=amax, n=nA)\n    return e_grid, Pi, a_grid\n\n\ndef income(w, e_grid):\n    y = w * e_grid\n    return y\n')
+           '    a_grid = grids.agrid(amax=amax, n=nA)\n    return e_grid, Pi, a_grid\n\n\ndef income(w, e_grid):\n    y = w * e_grid\n    return y\n\n\ndef share(c, a):\n    share = c / (c + a + 1.0)\n    return share\n')
     with open(os.path.join(d, 'c12_het.py'), 'w') as fh:
         fh.write(src)
     sys.modules.pop('c12_het', None)
@@ -235,6 +235,29 @@ def check_het(rng):
                              input=dict(kind='het', order=nm), observed=dict(inputs=sorted(blk.inputs), outputs=sorted(blk.outputs)),
                              expected=dict(inputs=sorted(exp_in), outputs=sorted(exp_out)), signature=dict(op='het-interface', order=nm)))
     calib = {'eis': 1.0, 'rho': 0.9, 'sigma': 0.5, 'nS': 2, 'nA': 12, 'amax': 50, 'r': 0.01, 'beta': 0.96, 'w': 1.0}
+    # renaming names that reach the interface ONLY through heterogeneous input/output functions attached AFTER the remap
+    mp2 = {'r': 'r_h', 'w': 'w_h', 'rho': 'rho_h', 'SHARE': 'SHARE_h', 'A': 'A_h'}
+    full = base.add_hetoutputs([hm.share])
+    late = hh.remap(mp2).add_hetinputs([hm.make_grids, hm.income]).add_hetoutputs([hm.share])
+    late2 = base.remap(mp2).remove_hetinputs(['income']).add_hetinputs([hm.income]).add_hetoutputs([hm.share])
+    exp_in2, exp_out2 = [mp2.get(k, k) for k in full.inputs], [mp2.get(k, k) for k in full.outputs]
+    for nm, blk in (('remap-then-attach-hetinput-and-hetoutput-names', late), ('remove-and-reattach-hetinput-then-attach-hetoutput-after-remap', late2)):
+        n += 1
+        if set(blk.inputs) != set(exp_in2) or set(blk.outputs) != set(exp_out2):
+            C.push(out, dict(what='names that enter the interface through heterogeneous input/output functions attached after a remap are not renamed',
+                             input=dict(kind='het', order=nm, map=mp2), observed=dict(inputs=sorted(blk.inputs), outputs=sorted(blk.outputs)),
+                             expected=dict(inputs=sorted(exp_in2), outputs=sorted(exp_out2)), signature=dict(op='het-interface', order=nm)))
+            continue
+        try:
+            s0, s1 = full.steady_state(calib), blk.steady_state(subst(calib, mp2))
+            if abs(s1['A_h'] - s0['A']) > 1e-9 or abs(s1['SHARE_h'] - s0['SHARE']) > 1e-9:
+                C.push(out, dict(what='steady state of the remapped household differs from the original', input=dict(kind='het', order=nm, map=mp2), signature=dict(op='het-steady-state', order=nm)))
+            J0 = full.jacobian(s0, ['w', 'rho'], ['SHARE', 'A'], T=5)
+            J1 = blk.jacobian(s1, ['w_h', 'rho_h'], ['SHARE_h', 'A_h'], T=5)
+            if not (np.allclose(J0['SHARE']['w'], J1['SHARE_h']['w_h'], atol=1e-8) and np.allclose(J0['A']['rho'], J1['A_h']['rho_h'], atol=1e-8)):
+                C.push(out, dict(what='Jacobian of the remapped household differs from the original', input=dict(kind='het', order=nm, map=mp2), signature=dict(op='het-jacobian', order=nm)))
+        except Exception as ex:
+            C.push(out, dict(what=f'household remapped before attaching its heterogeneous functions raised {type(ex).__name__}: {ex}', input=dict(kind='het', order=nm, map=mp2), signature=dict(op='het-raise', order=nm)))
     try:
         ss0 = base.steady_state(calib)
         for nm, blk in (('attach-then-remap', a), ('remap-then-attach', b)):
